@@ -59,7 +59,7 @@ def gen_nz(rnd):
             k = rnd.randint(0, M); q = k / M
             pts.add(rnd.choice([q, math.nextafter(q, 2.0), math.nextafter(q, -1.0), round(q, 2), round(q, 3)]))
         samples = sorted(x for x in pts if 0.0 <= x <= 1.0) or [1.0]
-    return dict(kind=kind, n=n, edges=edges, samples=samples, seed=rnd.random(), form=rnd.choice(['asis', 'asis', 'shuffled', 'dups', 'tuple', 'array', 'iter', 'ints']),
+    return dict(kind=kind, n=n, edges=edges, samples=samples, seed=rnd.random(), shuffled_nodes=rnd.random() < 0.4, form=rnd.choice(['asis', 'asis', 'shuffled', 'dups', 'tuple', 'array', 'iter', 'ints']),
                 how=rnd.choice(['graph', 'graph', 'fixed', 'limit1', 'limit2']))
 
 
@@ -67,7 +67,9 @@ def run_nz(spec):
     rnd = random.Random(spec['seed'])
     nzmod.numpy = Shim(rnd)
     n = spec['n']
-    g = nx.Graph(); g.add_nodes_from(range(n)); g.add_edges_from([tuple(e) for e in spec['edges']])
+    order = list(range(n))
+    if spec.get('shuffled_nodes'): random.Random(spec['seed'] + 3).shuffle(order)       # labelled 0..N-1, but not inserted in that order
+    g = nx.Graph(); g.add_nodes_from(order); g.add_edges_from([tuple(e) for e in spec['edges']])
     for v in g.nodes(): g.nodes[v]['w'] = v                        # the prototype carries attributes: they have to survive too
     for (a, b) in g.edges(): g.edges[a, b]['w'] = a + b
     proto = g.copy()
@@ -250,7 +252,7 @@ def gen_perc(rnd):
     M = len(edges)
     T = rnd.choice([0.0, 1.0, 0.5, 0.25, 0.75, 0.125, rnd.random(), (rnd.randrange(M + 1) / M) if M else 0.5])
     if M and rnd.random() < 0.35: T = min(1.0, near_fraction(rnd, M))
-    spec = dict(kind='perc', n=n, edges=edges, T=T, seed=rnd.random(), follow=rnd.random() < 0.5, limit1=rnd.random() < 0.3,
+    spec = dict(kind='perc', n=n, edges=edges, T=T, seed=rnd.random(), shuffled_nodes=rnd.random() < 0.4, follow=rnd.random() < 0.5, limit1=rnd.random() < 0.3,
                 labels=rnd.choice(['int', 'int', 'str', 'mixed']))
     if rnd.random() < 0.4 and M:
         # an earlier run of the same objects over a different network (often one with the same number of edges)
@@ -278,7 +280,9 @@ def run_perc14(spec):
     ix = {lab(i): i for i in range(n)}
     I = lambda v: ix.get(v, v if isinstance(v, int) and kind == 'int' else -1 - abs(hash(str(v))) % 1000)     # unknown labels stay visible as negatives
     canon = lambda es: sorted(tuple(sorted((I(a), I(b)))) for (a, b) in es)
-    g = nx.Graph(); g.add_nodes_from(lab(i) for i in range(n)); g.add_edges_from([(lab(a), lab(b)) for (a, b) in spec['edges']])
+    ordr = list(range(n))
+    if spec.get('shuffled_nodes'): random.Random(spec['seed'] + 3).shuffle(ordr)      # nodes not inserted in the order of their labels
+    g = nx.Graph(); g.add_nodes_from(lab(i) for i in ordr); g.add_edges_from([(lab(a), lab(b)) for (a, b) in spec['edges']])
     proto = g.copy(); T = spec['T']
     st = {}
 
@@ -343,7 +347,7 @@ def gen_shuf(rnd):
     n, edges = rand_graph(rnd, 4, 10, dens=rnd.choice([0.3, 0.5, 0.7]))
     f = rnd.choice([0.0, 0.1, 0.25, 0.5, 1.0, 1.5, rnd.random()])
     if edges and rnd.random() < 0.35: f = near_fraction(rnd, len(edges), top=1.5)
-    return dict(kind='shuf', n=n, edges=edges, f=f, seed=rnd.random(), sticky=rnd.choice([0.0, 0.0, 0.8, 0.9]), limit1=rnd.random() < 0.3,
+    return dict(kind='shuf', n=n, edges=edges, f=f, seed=rnd.random(), shuffled_nodes=rnd.random() < 0.4, sticky=rnd.choice([0.0, 0.0, 0.8, 0.9]), limit1=rnd.random() < 0.3,
                 labels=rnd.choice(['int', 'int', 'big', 'str']))
 
 
@@ -372,7 +376,9 @@ def run_shuf(spec):
     kind = spec.get('labels', 'int')
     lab = (lambda i: int(str(1000 + i))) if kind == 'big' else (lambda i: ''.join(['v', str(i)])) if kind == 'str' else (lambda i: i)
     inv = {lab(i): i for i in range(n)}
-    g = nx.Graph(); g.add_nodes_from(lab(i) for i in range(n)); g.add_edges_from([(lab(a), lab(b)) for (a, b) in spec['edges']])
+    ordr = list(range(n))
+    if spec.get('shuffled_nodes'): random.Random(spec['seed'] + 3).shuffle(ordr)      # nodes not inserted in the order of their labels
+    g = nx.Graph(); g.add_nodes_from(lab(i) for i in ordr); g.add_edges_from([(lab(a), lab(b)) for (a, b) in spec['edges']])
     if kind != 'int': g = g.copy()
     proto = g.copy(); f = spec['f']
     swaps = []
